@@ -121,10 +121,12 @@ func (e *Evaluator) pushFrame(name string) error {
 	}
 
 	if frame.depth > callDepthLimit {
+		verifEmit("Refuse", frame.depth, 0, "call")
 		return fmt.Errorf("call depth limit exceeded")
 	}
 
 	e.stackTop = &frame
+	verifEmit("Push", frame.depth, 0, name)
 	return nil
 }
 
@@ -133,6 +135,7 @@ func (e *Evaluator) popFrame() error {
 		panic(fmt.Errorf("attempt to pop root frame"))
 	}
 	e.stackTop = e.stackTop.parent
+	verifEmit("Pop", e.stackTop.depth, 0, "")
 	return nil
 }
 
@@ -400,6 +403,7 @@ func (e *Evaluator) evalCaseMatch(value *Cell, exprs []Expr) (bool, map[string]*
 }
 
 func (e *Evaluator) callFunction(exp *ExprCall, fn *Cell, args []*Value) (*Cell, error) {
+	verifStep()
 	switch fn.Value.Tag {
 	case ValueNativeFn:
 		result, err := fn.Value.NativeFn(e, args, fn.Value.Binding)
@@ -845,6 +849,7 @@ func (e *Evaluator) evalExprList(exprs []Expr, copy bool) ([]*Cell, error) {
 }
 
 func (e *Evaluator) evalStatement(stmt Statement) error {
+	verifStep()
 	switch st := stmt.(type) {
 	case *StatementBlock:
 		for _, s := range st.Body {
@@ -892,6 +897,7 @@ func (e *Evaluator) evalStatement(stmt Statement) error {
 		} else {
 			e.returnVal = nil
 		}
+		verifEmit("Raise", e.stackTop.depth, 0, "return")
 		return errReturn
 	case *StatementIf:
 		cell, err := e.evalExpr(st.Expr)
@@ -1024,12 +1030,16 @@ func (e *Evaluator) evalStatement(stmt Statement) error {
 			return e.error(st.Iterable.Token(), fmt.Sprintf("%s is not iterable", iterable.Value.Tag))
 		}
 	case *StatementBreak:
+		verifEmit("Raise", e.stackTop.depth, 0, "break")
 		return errBreak
 	case *StatementContinue:
+		verifEmit("Raise", e.stackTop.depth, 0, "continue")
 		return errContinue
 	case *StatementNext:
+		verifEmit("Raise", e.stackTop.depth, 0, "next")
 		return errNext
 	case *StatementExit:
+		verifEmit("Raise", e.stackTop.depth, 0, "exit")
 		return errExit
 	default:
 		return e.error(st.Token(), fmt.Sprintf("expected a statement but found %T", st))
@@ -1039,6 +1049,7 @@ func (e *Evaluator) evalStatement(stmt Statement) error {
 
 func (e *Evaluator) evalRules(rules []*Rule) error {
 	for _, rule := range rules {
+		verifRule(e, "P", rule)
 		match := true
 		if rule.Pattern != nil {
 			cell, err := e.evalExpr(rule.Pattern)
@@ -1046,6 +1057,7 @@ func (e *Evaluator) evalRules(rules []*Rule) error {
 				return err
 			}
 			match = cell.Value.isTruthy()
+			verifBool("Pattern", match)
 		}
 
 		if !match {
@@ -1054,6 +1066,7 @@ func (e *Evaluator) evalRules(rules []*Rule) error {
 
 		err := e.evalStatement(rule.Body)
 		if err == errNext {
+			verifEmit("Consume", e.stackTop.depth, 0, "next")
 			return nil
 		}
 		if err != nil {
@@ -1073,6 +1086,7 @@ func (e *Evaluator) evalPatternRules(patternRules []*Rule) error {
 		for i, item := range e.root.Value.Array {
 			e.ruleRoot = item
 			e.stackTop.locals["$index"] = NewCell(NewValue(i))
+			verifEmit("Element", i, e.stackTop.depth, "")
 			if err := e.evalRules(patternRules); err != nil {
 				return err
 			}
@@ -1140,6 +1154,7 @@ func EvalProgram(progSrc string, files []InputFile, rootSelectors []string, stdo
 
 	// begin rules
 	for _, rule := range ev.beginRules {
+		verifRule(&ev, "B", rule)
 		ev.ruleRoot = NewCell(NewValue(nil))
 		if err := ev.evalStatement(rule.Body); err != nil {
 			if err == errExit {
@@ -1161,6 +1176,7 @@ func EvalProgram(progSrc string, files []InputFile, rootSelectors []string, stdo
 			}
 
 			ev.setGlobal("$file", NewCell(NewValue(file.Name)))
+			verifEmit("Decoded", 0, 0, file.Name)
 
 			// find the root value(s)
 			rootCells := make([]*Cell, 0)
@@ -1181,6 +1197,7 @@ func EvalProgram(progSrc string, files []InputFile, rootSelectors []string, stdo
 
 				// run the begin file rules
 				for _, rule := range ev.beginFileRules {
+					verifRule(&ev, "BF", rule)
 					ev.ruleRoot = rootCell
 					if err := ev.evalStatement(rule.Body); err != nil {
 						if err == errExit {
@@ -1201,6 +1218,7 @@ func EvalProgram(progSrc string, files []InputFile, rootSelectors []string, stdo
 
 				// run the end file rules
 				for _, rule := range ev.endFileRules {
+					verifRule(&ev, "EF", rule)
 					ev.ruleRoot = NewCell(rootVal)
 					if err := ev.evalStatement(rule.Body); err != nil {
 						if err == errExit {
@@ -1215,6 +1233,7 @@ func EvalProgram(progSrc string, files []InputFile, rootSelectors []string, stdo
 
 	// end rules
 	for _, rule := range ev.endRules {
+		verifRule(&ev, "E", rule)
 		ev.ruleRoot = NewCell(NewValue(nil))
 		if err := ev.evalStatement(rule.Body); err != nil {
 			if err == errExit {
